@@ -185,6 +185,34 @@ fn r_edge<K: Key + 'static, V: Value + 'static, T: ReadableTable<K, V>>(
     }
 }
 
+// a read-only gap cursor session: position, then peeks and moves; one result per operation
+#[cfg(feature = "cursor")]
+fn r_cursor<K: Key + 'static, V: Value + 'static, T: ReadableTable<K, V>>(t: &T, cx: &Ctx, kt: &str, vt: &str, op: &J) -> J {
+    let mut s1 = vec![];
+    let b = kb::<K>(bound_of(&op["b"], kt, cx, &mut s1));
+    let mut cur = tr!(if op["upper"].as_bool().unwrap() { t.upper_bound(b) } else { t.lower_bound(b) });
+    let mut rs = vec![];
+    for o in op["ops"].as_array().unwrap() {
+        let r = match o.as_str().unwrap() {
+            "peek_next" => cur.peek_next(),
+            "peek_prev" => cur.peek_prev(),
+            "next" => cur.next(),
+            "prev" => cur.prev(),
+            other => panic!("HARNESS: unknown read cursor op {other}"),
+        };
+        rs.push(match r {
+            Ok(Some((k, v))) => ok(pair_json::<K, V>(cx, kt, vt, &k, &v)),
+            Ok(None) => ok(json!([])),
+            Err(e) => er(e),
+        });
+    }
+    json!({"rs": rs})
+}
+#[cfg(not(feature = "cursor"))]
+fn r_cursor<K: Key + 'static, V: Value + 'static, T: ReadableTable<K, V>>(_: &T, _: &Ctx, _: &str, _: &str, _: &J) -> J {
+    panic!("HARNESS: cursor steps need the harness built with --features cursor")
+}
+
 // consume up to cnt items of a double-ended iterator, starting at the back iff rev, alternating iff alt
 fn take_de<K: Key + 'static, V: Value + 'static, I>(
     it: &mut I, cx: &Ctx, kt: &str, vt: &str, cnt: u64, rev: bool, alt: bool,
@@ -220,7 +248,7 @@ fn r_range<K: Key + 'static, V: Value + 'static, T: ReadableTable<K, V>>(
     let rev = op["rev"].as_bool().unwrap();
     let alt = op["alt"].as_bool().unwrap();
     // Rust's BTreeMap panics on inverted ranges; redb documents nothing, the oracle says "empty"
-    let mut it = tr!(t.range::<K::SelfType<'_>>((kb::<K>(lo), kb::<K>(hi))));
+    let mut it = tr!(t.range((kb::<K>(lo), kb::<K>(hi))));
     let mut out = vec![];
     let mut back = rev;
     for _ in 0..cnt {
@@ -277,7 +305,7 @@ fn m_range<K: Key + 'static, V: Key + 'static, T: ReadableMultimapTable<K, V>>(
     let (mut s1, mut s2) = (vec![], vec![]);
     let lo = bound_of(lo, kt, cx, &mut s1);
     let hi = bound_of(hi, kt, cx, &mut s2);
-    let mut it = tr!(t.range::<K::SelfType<'_>>((kb::<K>(lo), kb::<K>(hi))));
+    let mut it = tr!(t.range((kb::<K>(lo), kb::<K>(hi))));
     let mut out = vec![];
     loop {
         let item = if rev { it.next_back() } else { it.next() };
@@ -416,6 +444,64 @@ impl<K: Key + 'static, V: Reserve<K>> WHandle for WT<K, V> {
                 };
                 ok(json!([occ, val]))
             }
+            #[cfg(feature = "cursor")]
+            "cursor" => {
+                let mut s1 = vec![];
+                let b = kb::<K>(bound_of(&op["b"], kt, cx, &mut s1));
+                let upper = op["upper"].as_bool().unwrap();
+                let mut evs = vec![];
+                let opened = if upper { self.t.upper_bound_mut(b) } else { self.t.lower_bound_mut(b) };
+                let mut cur = match opened {
+                    Ok(c) => c,
+                    Err(e) => return json!({"multi": [{"e": "cur_open", "n": op["n"], "b": op["b"], "upper": upper, "r": er(e)}]}),
+                };
+                evs.push(json!({"e": "cur_open", "n": op["n"], "b": op["b"], "upper": upper, "r": ok(json!(0))}));
+                for o in op["ops"].as_array().unwrap() {
+                    let name = o["op"].as_str().unwrap();
+                    let k = o.get("k").and_then(|k| k.as_u64()).unwrap_or(0);
+                    let v = o.get("v").and_then(|v| v.as_u64()).unwrap_or(0);
+                    let entry = |r: Result<Option<(redb::AccessGuard<'_, K>, redb::AccessGuard<'_, V>)>, redb::StorageError>| match r {
+                        Ok(Some((k, v))) => ok(pair_json::<K, V>(cx, kt, vt, &k, &v)),
+                        Ok(None) => ok(json!([])),
+                        Err(e) => er(e),
+                    };
+                    let r = match name {
+                        "peek_next" => entry(cur.peek_next()),
+                        "peek_prev" => entry(cur.peek_prev()),
+                        "next" => entry(cur.next()),
+                        "prev" => entry(cur.prev()),
+                        "rem_next" => entry(cur.remove_next()),
+                        "rem_prev" => entry(cur.remove_prev()),
+                        "ins_before" | "ins_after" => {
+                            let kbuf = cx.key_bytes(kt, k as u32);
+                            let vbuf = cx.val_bytes(vt, v as u32);
+                            let r = if name == "ins_before" {
+                                cur.insert_before(K::from_bytes(&kbuf), V::from_bytes(&vbuf))
+                            } else {
+                                cur.insert_after(K::from_bytes(&kbuf), V::from_bytes(&vbuf))
+                            };
+                            match r {
+                                Ok(()) => ok(json!(0)),
+                                Err(e) => er(e),
+                            }
+                        }
+                        other => panic!("HARNESS: unknown cursor op {other}"),
+                    };
+                    evs.push(json!({"e": "cur", "op": name, "k": k, "v": v, "r": r}));
+                }
+                let r = if op["end"].as_str() == Some("drop") {
+                    drop(cur);
+                    ok(json!(0))
+                } else {
+                    match cur.close() {
+                        Ok(()) => ok(json!(0)),
+                        Err(e) => er(e),
+                    }
+                };
+                evs.push(json!({"e": "cur_close", "end": op["end"], "r": r}));
+                json!({"multi": evs})
+            }
+            "rcursor" => r_cursor::<K, V, _>(&self.t, cx, kt, vt, op),
             "rem" => match tr!(self.t.remove(K::from_bytes(&kbuf))) {
                 Some(g) => ok(json!([vi(V::as_bytes(&g.value()).as_ref())])),
                 None => ok(json!([])),
@@ -440,7 +526,7 @@ impl<K: Key + 'static, V: Reserve<K>> WHandle for WT<K, V> {
                     let (mut s1, mut s2) = (vec![], vec![]);
                     let lo = bound_of(&op["lo"], kt, cx, &mut s1);
                     let hi = bound_of(&op["hi"], kt, cx, &mut s2);
-                    tr!(self.t.retain_in::<K::SelfType<'_>, _>((kb::<K>(lo), kb::<K>(hi)), keep));
+                    tr!(self.t.retain_in((kb::<K>(lo), kb::<K>(hi)), keep));
                 }
                 ok(json!(0))
             }
@@ -479,7 +565,7 @@ impl<K: Key + 'static, V: Reserve<K>> WHandle for WT<K, V> {
                 } else {
                     let lo = bound_of(&op["lo"], kt, cx, &mut s1);
                     let hi = bound_of(&op["hi"], kt, cx, &mut s2);
-                    let mut it = tr!(self.t.extract_from_if::<K::SelfType<'_>, _>((kb::<K>(lo), kb::<K>(hi)), pred));
+                    let mut it = tr!(self.t.extract_from_if((kb::<K>(lo), kb::<K>(hi)), pred));
                     tr!(consume(&mut it));
                     tr!(it.close());
                 }
@@ -612,6 +698,7 @@ fn ro_op<K: Key + 'static, V: Value + 'static>(
         "len" => ok(json!(tr!(t.len()))),
         "edge" => r_edge::<K, V, _>(&t, cx, kt, vt, op["last"].as_bool().unwrap()),
         "range" => r_range::<K, V, _>(&t, cx, kt, vt, op),
+        "rcursor" => r_cursor::<K, V, _>(&t, cx, kt, vt, op),
         other => panic!("unsupported read op {other}"),
     }
 }
@@ -639,13 +726,22 @@ fn hold_iter<K: Key + 'static, V: Value + 'static>(
     let lo = bound_of(&op["lo"], kt, cx, &mut s1);
     let hi = bound_of(&op["hi"], kt, cx, &mut s2);
     if owned {
-        let it = t.range_owned::<K::SelfType<'_>>((kb::<K>(lo), kb::<K>(hi)))?;
+        let it = t.range_owned((kb::<K>(lo), kb::<K>(hi)))?;
         // OwnedRange yields OwnedAccessGuard; adapt by collecting lazily is not possible without
         // changing types, so the owned variant is adapted item by item below
         Ok(Box::new(HeldOwned::<K, V> { it, kt: kt.to_string(), vt: vt.to_string() }))
     } else {
-        let it = t.range::<K::SelfType<'_>>((kb::<K>(lo), kb::<K>(hi)))?;
-        Ok(Box::new(Held::<K, V, _> { it, kt: kt.to_string(), vt: vt.to_string(), _p: std::marker::PhantomData }))
+        // with the experimental API the borrowed range is tied to the table handle: the held form is the owned one
+        #[cfg(feature = "cursor")]
+        {
+            let it = t.range_owned((kb::<K>(lo), kb::<K>(hi)))?;
+            Ok(Box::new(HeldOwned::<K, V> { it, kt: kt.to_string(), vt: vt.to_string() }))
+        }
+        #[cfg(not(feature = "cursor"))]
+        {
+            let it = t.range((kb::<K>(lo), kb::<K>(hi)))?;
+            Ok(Box::new(Held::<K, V, _> { it, kt: kt.to_string(), vt: vt.to_string(), _p: std::marker::PhantomData }))
+        }
     }
 }
 
@@ -842,8 +938,10 @@ impl Exec {
             "dur" | "2pc" | "qr" | "commit" | "abort" | "dropw" | "rename" | "delete" | "spe" | "spp" | "spdel" | "splist" | "sprestp" => self.wtx.is_some(),
             "spreste" => self.wtx.is_some() && self.sps.contains_key(s("s")) && self.wtables.is_empty(),
             "open" => self.wtx.is_some() && !self.wtables.contains_key(s("n")),
-            "close" | "ins" | "insr" | "getmut" | "entry" | "rem" | "pop" | "retain" | "extract" | "mins" | "mrem" | "mremall" => self.wtables.contains_key(s("n")),
-            "get" | "len" | "edge" | "range" | "mget" | "mrange" | "ropen" | "list" => {
+            "close" | "ins" | "insr" | "getmut" | "entry" | "rem" | "pop" | "retain" | "extract" | "mins" | "mrem" | "mremall" | "cursor" => {
+                self.wtables.contains_key(s("n"))
+            }
+            "get" | "len" | "edge" | "range" | "mget" | "mrange" | "ropen" | "list" | "rcursor" => {
                 let src = if s("src").is_empty() { s("h") } else { s("src") };
                 if src == "w" {
                     if e == "list" { self.wtx.is_some() } else { self.wtables.contains_key(s("n")) }
@@ -1068,10 +1166,13 @@ impl Exec {
                 })
             }
             // table operations through a write handle
-            "ins" | "insr" | "getmut" | "entry" | "rem" | "pop" | "retain" | "extract" | "mins" | "mrem" | "mremall" => {
+            "ins" | "insr" | "getmut" | "entry" | "rem" | "pop" | "retain" | "extract" | "mins" | "mrem" | "mremall" | "cursor" => {
                 let n = op["n"].as_str().unwrap();
                 let h = self.wtables.get_mut(n).expect("HARNESS: table not open");
                 let r = h.op(&self.cx, op);
+                if let Some(multi) = r.get("multi") {
+                    return multi.as_array().unwrap().clone();
+                }
                 let mut evs = Self::with_r(op, r);
                 if matches!(e, "mins" | "mrem" | "mremall") {
                     // len() after every multimap mutation (it is maintained incrementally)
@@ -1081,7 +1182,7 @@ impl Exec {
                 }
                 evs
             }
-            "get" | "len" | "edge" | "range" | "mget" | "mrange" | "ropen" => {
+            "get" | "len" | "edge" | "range" | "mget" | "mrange" | "ropen" | "rcursor" => {
                 let n = op["n"].as_str().unwrap();
                 let src = op.get("src").and_then(|s| s.as_str()).or_else(|| op.get("h").and_then(|s| s.as_str())).unwrap();
                 let r = if src == "w" {
